@@ -110,7 +110,44 @@ let own o t v =
     (List.length o) (int_of_nat (count_kind KStruct o)) (int_of_nat (count_kind KBuf o)) (int_of_nat (count_kind KArr o)) (int_of_nat (count_kind KScratch o))
     (List.length fe) (ledger_s l1) (List.length fr) (ledger_s l2) z (if shape t s then 1 else 0)
 
+(* ---- round c14x: coq/Rt/HeapX.v ----
+     c14layout <kind>            -> the model's table of the leaf structure, in the words of the C harness' `layout`
+     c14leaf <kind> <hex>        -> the bytes ASN_STRUCT_RESET leaves (leaf_free k FreeUnderlyingAndReset), hex
+     c14xfail <nroot> <j> <ty> <val>  -> n=<blocks owned by the structure SEQUENCE_decode_oer leaves after a failure inside
+                                    the open type container of addition j> (fail_in_addition, OER decoder) *)
+let kind_of = function
+  | "bool" -> LBool | "null" -> LNull | "nint" -> LNInt | "nreal" -> LNReal | "nfloat" -> LNFloat
+  | "prim" -> LPrim | "oct" -> LOct | "bits" -> LBits
+  | k -> raise (Parse ("unknown leaf kind " ^ k))
+
+let layout ks =
+  let k = kind_of ks in
+  let at f = match field_at k f with Some (o, l) -> Some (int_of_nat o, int_of_nat l) | None -> None in
+  let b = Buffer.create 64 in
+  Buffer.add_string b (Printf.sprintf "kind=%s sizeof=%d wiped=%d" ks (int_of_nat (sizeof k)) (int_of_nat (wiped k)));
+  (match at FCtxPhaseStep with
+   | Some (o, _) -> Buffer.add_string b (Printf.sprintf " ss=%d ctx=%d" (int_of_nat (wiped k)) o)
+   | None -> ());
+  (match at FBuf with Some (o, l) -> Buffer.add_string b (Printf.sprintf " buf=%d:%d" o l) | None -> ());
+  (match at FSize with Some (o, l) -> Buffer.add_string b (Printf.sprintf " size=%d:%d" o l) | None -> ());
+  (match at FBitsUnused with Some (o, l) -> Buffer.add_string b (Printf.sprintf " bits_unused=%d:%d" o l) | None -> ());
+  (match at FCtxPtr, at FCtxPhaseStep with
+   | Some (o, l), Some (c, _) -> Buffer.add_string b (Printf.sprintf " ctxptr=%d:%d ctxsize=%d" o l (int_of_nat (sizeof k) - c))
+   | _ -> ());
+  Buffer.contents b
+
+let leaf ks hex =
+  let (_, bs) = leaf_free (kind_of ks) FreeUnderlyingAndReset (bytes_of_hex hex) in
+  hex_of_bytes bs
+
+let xfail nroot j t v =
+  let s = fail_in_addition true (nat_of_int nroot) (nat_of_int j) t v in
+  Printf.sprintf "n=%d shape=%d" (List.length (owned t true [] s)) (if shape t s then 1 else 0)
+
 let dispatch cmd args =
   match cmd, args with
   | "c14own", [o; t; v] -> Some (own (o = "1") (ty_of t) (val_of v))
+  | "c14layout", [k] -> Some (layout k)
+  | "c14leaf", [k; h] -> Some (leaf k h)
+  | "c14xfail", [r; j; t; v] -> Some (xfail (int_of_string r) (int_of_string j) (ty_of t) (val_of v))
   | _ -> None
